@@ -125,6 +125,9 @@ CORPUS = [
     dict(fluid="Ammonia", Te=-5.0, Tc=35.0, sh=2.5, sc=0.0, eta=1.0, Q=1.0, reqs=["evap", "both", "evap"]),
     dict(fluid="R134a", Te=10.0, Tc=60.0, sh=5.0, sc=2.5, eta=0.75, Q=250.0, reqs=["cond", "evap"],
          pre=dict(Te=0.0, Tc=35.0, sh=0.0, sc=0.0, eta=0.625, Q=100.0, keep=True)),          # object re-used for a second operating point
+    # a zeotropic pseudo-pure blend with subcooling smaller than its glide, condensing at 80 degC (the PT flash at the condenser outlet fails
+    # and the saturated-LIQUID fallback is used)
+    dict(fluid="R407C", Te=40.0, Tc=80.0, sh=5.0, sc=2.0, eta=0.75, Q=1000.0, reqs=["both", "cond"]),
     # D27 (fixed fb8f317): lift under 5 K with no internal exchanger requested: COP_h = COP_r + 1
     dict(fluid="R134a", Te=10.0, Tc=13.0, sh=0.0, sc=0.0, eta=0.75, Q=1.0, reqs=["both"]),
     dict(fluid="R134a", Te=10.0, Tc=13.0, sh=2.5, sc=0.0, eta=0.5, Q=2.5, reqs=["cond", "evap"]),
